@@ -1,5 +1,11 @@
 """C10, group D: FileSet.align over two controlled loader pools (driven from
-c10_parallel.py)."""
+c10_parallel.py).
+
+Primary i covers hour i, secondary j the hour starting at shift + j + 0.5
+(shift 0: it overlaps primaries j and j+1; shift 10: it overlaps nothing).
+Route "matches": the relation is handed over as matches= (the coverage is
+irrelevant). Route "period": align(start, end, max_interval) finds it."""
+import datetime
 import itertools
 import os
 import warnings
@@ -7,13 +13,69 @@ import warnings
 from mc import driver, explorer, fsbuild, pool
 from checks import c10_parallel as P
 
+INDEX = {}             # path -> file index (primaries 0.., secondaries 10..)
+MIN = datetime.timedelta(minutes=1)
+WHOLE = (P.T0 - P.H, P.T0 + 30 * P.H)
+# (shift, start, end, max_interval in minutes or None)
+PERIODS = [(0,) + WHOLE + (None,),
+           (0,) + WHOLE + (40,),
+           (0, P.T0 + 96 * MIN, P.T0 + 114 * MIN, None),
+           (10,) + WHOLE + (None,)]
+
+
+def reader(file_info, fail=()):
+    k = INDEX[os.fspath(file_info.path)]
+    P.READ_LOG.append(k)
+    if k in fail:
+        raise P.ReadError("cannot read %d" % k)
+    return {"id": k}
+
+
+def ident(x):
+    """"c<k>" for the content of file k, "i<k>" for its FileInfo."""
+    if isinstance(x, dict):
+        return "c%s" % x.get("id")
+    if hasattr(x, "path"):
+        return "i%s" % INDEX.get(os.fspath(x.path))
+    return repr(x)
+
 
 def relations(p, s):
     """Every match relation: each primary gets a non-empty, time-ordered
     subset of the secondaries."""
     subsets = [c for r in range(1, s + 1)
                for c in itertools.combinations(range(s), r)]
-    return itertools.product(subsets, repeat=p)
+    return [tuple(enumerate(rel))
+            for rel in itertools.product(subsets, repeat=p)]
+
+
+def coverage(p, s, shift):
+    a = [(P.T0 + i * P.H, P.T0 + (i + 1) * P.H) for i in range(p)]
+    b = [(P.T0 + (shift + j) * P.H + 30 * MIN,
+          P.T0 + (shift + j + 1) * P.H + 30 * MIN) for j in range(s)]
+    return a, b
+
+
+def overlap(x, y):
+    assert all(abs(u - v) >= 5 * MIN for u in x for v in y), (x, y)
+    return x[0] < y[1] and y[0] < x[1]
+
+
+def coverage_relation(p, s, period):
+    """The matches align(start, end, max_interval) has to find, or None if
+    one side has no file in the period at all."""
+    shift, start, end, mi = period
+    mi = (mi or 0) * MIN
+    a, b = coverage(p, s, shift)
+    window = (start - mi, end + mi)
+    sel_a = [i for i in range(p) if overlap(a[i], window)]
+    sel_b = [j for j in range(s) if overlap(b[j], window)]
+    if not sel_a or not sel_b:
+        return None
+    rel = [(i, tuple(j for j in sel_b
+                     if overlap(a[i], (b[j][0] - mi, b[j][1] + mi))))
+           for i in sel_a]
+    return tuple((i, secs) for i, secs in rel if secs)
 
 
 def shards(tier, seed):
@@ -26,32 +88,37 @@ def shards(tier, seed):
         [(1, 1, True), (1, 3, True), (2, 2, True), (2, 3, True),
          (3, 2, True), (3, 3, True)]
     for p, s, faults in shapes:
-        rels = list(relations(p, s))
+        rels = relations(p, s)
+        if (p, s) == (1, 1):
+            rels = [()] + rels           # nothing matched
         n = 1 if len(rels) < 20 else (12 if tier == "quick" else 48)
         for i in range(n):
             if rels[i::n]:
                 out.append(("align", tier, p, s, rels[i::n], faults))
+        out.append(("align-period", tier, p, s))
     return out
 
 
-def build(root, p, s, threads):
+def build(root, p, s, threads, shift):
     from typhon.files import FileSet, FileHandler
-    fa = fsbuild.populate(os.path.join(root, "A"), P.TEMPLATE, [
-        (P.T0 + k * P.H, P.T0 + (k + 1) * P.H, None) for k in range(p)])
-    fb = fsbuild.populate(os.path.join(root, "B"), P.TEMPLATE, [
-        (P.T0 + (10 + k) * P.H, P.T0 + (11 + k) * P.H, None)
-        for k in range(s)])
+    a, b = coverage(p, s, shift)
+    fa = fsbuild.populate(os.path.join(root, "A"), P.TEMPLATE,
+                          [(t0, t1, None) for t0, t1 in a])
+    fb = fsbuild.populate(os.path.join(root, "B"), P.TEMPLATE,
+                          [(t0, t1, None) for t0, t1 in b])
+    INDEX.update({f.path: i for i, f in enumerate(fa)})
+    INDEX.update({f.path: 10 + j for j, f in enumerate(fb)})
     A = FileSet(os.path.join(root, "A", P.TEMPLATE), name="A",
-                handler=FileHandler(reader=P.reader), max_threads=threads)
+                handler=FileHandler(reader=reader), max_threads=threads)
     B = FileSet(os.path.join(root, "B", P.TEMPLATE), name="B",
-                handler=FileHandler(reader=P.reader), max_threads=threads)
+                handler=FileHandler(reader=reader), max_threads=threads)
     return A, B, fa, fb
 
 
 def expected(rel, fault, skip):
     """-> (pairs, error) with pairs = [(i, 10+j), ...]"""
     pairs = []
-    for i, secs in enumerate(rel):
+    for i, secs in rel:
         if fault == ("A", i) and not skip:
             return pairs, "ReadError"
         for j in secs:
@@ -63,11 +130,23 @@ def expected(rel, fault, skip):
     return pairs, None
 
 
-def execute(A, B, fa, fb, rel, fault, skip):
+def execute(A, B, fa, fb, case):
+    """case: dict(rel, period, fault, skip, info) - period None = the
+    relation is passed as matches=."""
     from typhon.files.handlers import FileInfo
-    ia = [FileInfo(f.path, [f.t0, f.t1], {}) for f in fa]
-    ib = [FileInfo(f.path, [f.t0, f.t1], {}) for f in fb]
-    matches = [(ia[i], [ib[j] for j in secs]) for i, secs in enumerate(rel)]
+    fault, info = case["fault"], case["info"]
+    if case["period"] is None:
+        ia = [FileInfo(f.path, [f.t0, f.t1], {}) for f in fa]
+        ib = [FileInfo(f.path, [f.t0, f.t1], {}) for f in fb]
+        kwargs = dict(matches=[(ia[i], [ib[j] for j in secs])
+                               for i, secs in case["rel"]])
+    else:
+        _, start, end, mi = case["period"]
+        kwargs = dict(start=start, end=end)
+        if mi is not None:
+            kwargs["max_interval"] = "%d min" % mi
+    if not info:
+        kwargs["return_info"] = False
     del P.READ_LOG[:]
     A.read_args = {}
     B.read_args = {}
@@ -81,9 +160,9 @@ def execute(A, B, fa, fb, rel, fault, skip):
     with warnings.catch_warnings():
         warnings.simplefilter("ignore")
         try:
-            for prim, sec in A.align(B, matches=matches, skip_errors=skip):
-                got.append((P.summarise(prim[0]), P.summarise(prim[1]),
-                            P.summarise(sec[0]), P.summarise(sec[1])))
+            for prim, sec in A.align(B, skip_errors=case["skip"], **kwargs):
+                got.append(tuple(ident(x) for x in (*prim, *sec)) if info
+                           else (ident(prim), ident(sec)))
         except P.ReadError as exc:
             err = "ReadError"
             P.release_frames(exc)
@@ -91,18 +170,24 @@ def execute(A, B, fa, fb, rel, fault, skip):
             err = "Deadlock: %s" % exc
             P.release_frames(exc)
         except Exception as exc:
+            P.reraise_watchdog(exc)
             err = "%s: %s" % (type(exc).__name__, str(exc)[:100])
             P.release_frames(exc)
     return got, err, tuple(sorted(P.READ_LOG))
 
 
-def judge(rel, fault, skip, obs):
+def judge(case, obs):
     got, err, reads = obs
-    exp_pairs, exp_err = expected(rel, fault, skip)
-    exp = [(i, i, j, j) for i, j in exp_pairs]
+    rel = case["rel"]
+    exp_pairs, exp_err = expected(rel, case["fault"], case["skip"])
+    if case["info"]:
+        exp = [("i%d" % i, "c%d" % i, "i%d" % j, "c%d" % j)
+               for i, j in exp_pairs]
+    else:
+        exp = [("c%d" % i, "c%d" % j) for i, j in exp_pairs]
     if err != exp_err:
-        return ("align/exception-lost-or-unexpected", (exp, exp_err),
-                (got, err))
+        what = "nothing-matched" if not rel else "exception-lost-or-unexpected"
+        return ("align/" + what, (exp, exp_err), (got, err))
     if got != exp:
         if sorted(got) == sorted(exp):
             return ("align/order", exp, got)
@@ -110,24 +195,23 @@ def judge(rel, fault, skip, obs):
     if len(set(reads)) != len(reads):
         return ("align/file-read-twice", "once", reads)
     if exp_err is None:
-        need = set(range(len(rel))) | {10 + j for secs in rel for j in secs}
+        need = {i for i, _ in rel} | {10 + j for _, secs in rel for j in secs}
         if set(reads) != need:
             return ("align/file-not-read-or-unneeded-read", sorted(need),
                     reads)
     return None
 
 
-def run_case(res, root, p, s, rel, fault, skip, threads, cache):
+def run_case(res, root, p, s, case, cache):
     from typhon.files import fileset as fsmod
-    key = (p, s, threads)
+    shift = 0 if case["period"] is None else case["period"][0]
+    key = (p, s, case["threads"], shift)
     if key not in cache:
-        cache[key] = build(os.path.join(root, "p%ds%dt%d" % key), p, s,
-                           threads)
+        cache[key] = build(os.path.join(root, "p%ds%dt%dh%d" % key), *key)
     A, B, fa, fb = cache[key]
     stats = explorer.Stats()
 
     def run(ctx):
-        consumed = []
         world = pool.World(ctx, state_fn=lambda: len(P.READ_LOG))
         saved = (fsmod.ThreadPoolExecutor, fsmod.ProcessPoolExecutor,
                  fsmod.gc)
@@ -138,7 +222,7 @@ def run_case(res, root, p, s, rel, fault, skip, threads, cache):
         try:
             A.info_cache.clear()
             B.info_cache.clear()
-            return world, execute(A, B, fa, fb, rel, fault, skip)
+            return world, execute(A, B, fa, fb, case)
         finally:
             world.close()
             restore()
@@ -148,7 +232,7 @@ def run_case(res, root, p, s, rel, fault, skip, threads, cache):
     import gc
     gc.disable()
     try:
-        explore_loop(res, run, stats, p, s, rel, fault, skip, threads)
+        explore_loop(res, run, stats, p, s, case)
     finally:
         gc.enable()
     res.count("states", len(stats.states))
@@ -157,62 +241,96 @@ def run_case(res, root, p, s, rel, fault, skip, threads, cache):
     res.count("configurations")
 
 
-def explore_loop(res, run, stats, p, s, rel, fault, skip, threads):
+def explore_loop(res, run, stats, p, s, case):
     for ctx, (world, obs) in explorer.explore(run, bound=0, prune=True,
                                               stats=stats):
         fin = [(pi, t) for k, pi, t in world.log if k == "finish"]
         ooo = any(a[0] == b[0] and a[1] > b[1]
                   for a, b in zip(fin, fin[1:]))
-        res.case(nontrivial=ooo or fault is not None)
-        bad = judge(rel, fault, skip, obs)
+        res.case(nontrivial=ooo or case["fault"] is not None)
+        bad = judge(case, obs)
         if bad is not None:
             again = run(explorer.Ctx(tuple(ctx.choices)))[1]
             if repr(again) != repr(obs):
-                res.error("NONDETERMINISM align %r" % (rel,))
+                res.error("NONDETERMINISM align %r" % (case,))
                 continue
-            res.violation(bad[0], dict(group="align", p=p, s=s, rel=rel,
-                                       fault=fault, skip=skip,
-                                       threads=threads, choices=ctx.choices),
+            res.violation(bad[0], dict(case, group="align", p=p, s=s,
+                                       choices=ctx.choices),
                           bad[1], bad[2])
 
 
 def run_shard(shard):
-    _, tier, p, s, rels, with_faults = shard
     res = driver.ShardResult()
     root = driver.fresh_dir("c10a")
     cache = {}
-    import gc
-    for rel in rels:
-        gc.collect()
-        for threads in (1, 2):
-            run_case(res, root, p, s, rel, None, False, threads, cache)
-        faults = [("A", i) for i in range(p)] + [("B", j) for j in range(s)]
-        if not with_faults:
-            faults = []
-        for fault in faults:
-            for skip in (True, False):
-                run_case(res, root, p, s, rel, fault, skip, 2, cache)
-    res.sample(dict(group="align", primaries=p, secondaries=s,
-                    relation=rels[-1]))
+    case = None
+    if shard[0] == "align-period":
+        _, tier, p, s = shard
+        for period in PERIODS:
+            rel = coverage_relation(p, s, period)
+            if rel is None:
+                continue
+            for threads in (1, 2):
+                for info in (True, False):
+                    case = dict(rel=rel, period=period, fault=None,
+                                skip=False, info=info, threads=threads)
+                    run_case(res, root, p, s, case, cache)
+    else:
+        _, tier, p, s, rels, with_faults = shard
+        import gc
+        for rel in rels:
+            gc.collect()
+            base = dict(rel=rel, period=None, fault=None, skip=False,
+                        info=True, threads=2)
+            for threads in (1, 2):
+                for info in (True, False):
+                    # contents only: the schedules of two loader threads
+                    # are left to thorough
+                    if tier == "quick" and threads == 2 and not info:
+                        continue
+                    case = dict(base, threads=threads, info=info)
+                    run_case(res, root, p, s, case, cache)
+            if not with_faults:
+                continue
+            for fault in [("A", i) for i, _ in rel] + \
+                    [("B", j) for j in range(s)]:
+                for skip in (True, False):
+                    case = dict(base, fault=fault, skip=skip)
+                    run_case(res, root, p, s, case, cache)
+    if case is not None:
+        res.sample(dict(case, group="align", primaries=p, secondaries=s))
     return res
 
 
-def replay(case):
+def case_of(recorded):
+    """The case dict of a replay artefact (JSON lists back to tuples)."""
+    period = recorded["period"]
+    if period is not None:
+        period = (period[0], datetime.datetime.fromisoformat(period[1]),
+                  datetime.datetime.fromisoformat(period[2]), period[3])
+    return dict(rel=tuple((i, tuple(secs)) for i, secs in recorded["rel"]),
+                period=period,
+                fault=tuple(recorded["fault"]) if recorded["fault"] else None,
+                skip=recorded["skip"], info=recorded["info"],
+                threads=recorded["threads"])
+
+
+def replay(recorded):
     from typhon.files import fileset as fsmod
     root = driver.fresh_dir("c10ar")
-    rel = tuple(tuple(x) for x in case["rel"])
-    fault = tuple(case["fault"]) if case["fault"] else None
-    A, B, fa, fb = build(root, case["p"], case["s"], case["threads"])
-    ctx = explorer.Ctx(tuple(tuple(x) for x in case["choices"]))
+    case = case_of(recorded)
+    A, B, fa, fb = build(root, recorded["p"], recorded["s"], case["threads"],
+                         0 if case["period"] is None else case["period"][0])
+    ctx = explorer.Ctx(tuple(tuple(x) for x in recorded["choices"]))
     world = pool.World(ctx, state_fn=lambda: len(P.READ_LOG))
     saved = (fsmod.ThreadPoolExecutor, fsmod.ProcessPoolExecutor)
     fsmod.ThreadPoolExecutor = world.executor_class("thread")
     fsmod.ProcessPoolExecutor = world.executor_class("process")
     try:
-        obs = execute(A, B, fa, fb, rel, fault, case["skip"])
+        obs = execute(A, B, fa, fb, case)
     finally:
         fsmod.ThreadPoolExecutor, fsmod.ProcessPoolExecutor = saved
-    bad = judge(rel, fault, case["skip"], obs)
+    bad = judge(case, obs)
     if bad is None:
         return dict(ok=True, observed=obs)
     return dict(ok=False, key=bad[0], expected=bad[1], observed=bad[2])
